@@ -1,7 +1,7 @@
 #!/bin/sh
 # usage: mutrun.sh <tier> <ids...> : runs each mutant /tmp/mut/out/<ID>/<k>/patch.diff against check <ID>
 tier=$1; shift
-for id in "$@"; do for k in 1 2 3; do
+for id in "$@"; do for k in ${KS:-1 2 3}; do
   p=/tmp/mut/out/$id/$k/patch.diff; [ -f /tmp/mut/out/$id/$k/patch.ported.diff ] && p=/tmp/mut/out/$id/$k/patch.ported.diff; [ -f $p ] || continue
   out=$(/verif/lib/trymut.sh $p bin/check $id $tier 2>&1); rc=$?
   echo "MUT $id/$k rc=$rc $(echo "$out" | grep -o 'clauses flagged.*\|INCONCLUSIVE.*\|PATCH FAILED.*' | head -1 | cut -c1-200)"
